@@ -1105,3 +1105,574 @@ theorem run_last_mono (c : Cfg) (hc : c.fix13 = true) (tr : List Ev) (s : St) (q
     exact ⟨Nat.le_trans h1.1 h2.1, Nat.le_trans h1.2 h2.2.1, h2.2.2⟩
 
 end Hap.Sys
+
+namespace Hap.Sys
+
+/-! ### the dict-like queue -/
+
+theorem aget_aset (q : List (Cid × Val)) (x y : Cid) (v : Val) :
+    aget (aset q x v) y = if y = x then some v else aget q y := by
+  induction q with
+  | nil => simp only [aset, aget]; split <;> simp_all [eq_comm]
+  | cons h t ih =>
+    obtain ⟨z, w⟩ := h
+    simp only [aset]
+    split
+    · rename_i hz; subst hz
+      simp only [aget]; split <;> simp_all [eq_comm]
+    · rename_i hz
+      simp only [aget, ih]
+      split <;> split <;> simp_all
+
+theorem aget_filter (q : List (Cid × Val)) (P : Cid → Bool) (y : Cid) :
+    aget (q.filter (fun e => P e.1)) y = if P y then aget q y else none := by
+  induction q with
+  | nil => simp [aget]
+  | cons h t ih =>
+    obtain ⟨z, w⟩ := h
+    simp only [List.filter]
+    cases hz : P z with
+    | true =>
+      simp only [aget, ih]
+      split
+      · rename_i e; subst e; simp [hz]
+      · rfl
+    | false =>
+      simp only [ih, aget]
+      split
+      · split
+        · rename_i e; subst e; simp_all
+        · rfl
+      · rfl
+
+theorem aget_adel (q : List (Cid × Val)) (x y : Cid) :
+    aget (adel q x) y = if y = x then none else aget q y := by
+  have := aget_filter q (fun z => decide (z ≠ x)) y
+  simp only [adel]
+  rw [this]
+  by_cases h : y = x <;> simp [h]
+
+theorem aget_none_of_not_mem (q : List (Cid × Val)) (x : Cid) (h : x ∉ q.map Prod.fst) : aget q x = none := by
+  induction q with
+  | nil => rfl
+  | cons hd t ih =>
+    obtain ⟨z, w⟩ := hd
+    simp only [List.map, List.mem_cons, not_or] at h
+    simp only [aget]
+    split
+    · rename_i e; exact absurd e.symm h.1
+    · exact ih h.2
+
+theorem keys_aset (q : List (Cid × Val)) (x : Cid) (v : Val) (y : Cid) :
+    y ∈ (aset q x v).map Prod.fst ↔ y = x ∨ y ∈ q.map Prod.fst := by
+  induction q with
+  | nil => simp [aset]
+  | cons h t ih =>
+    obtain ⟨z, w⟩ := h
+    simp only [aset]
+    split
+    · rename_i e; subst e; simp
+    · simp only [List.map, List.mem_cons, ih]
+      constructor
+      · rintro (h | h | h) <;> simp_all
+      · rintro (h | h | h) <;> simp_all
+
+theorem nodup_aset (q : List (Cid × Val)) (x : Cid) (v : Val) (h : (q.map Prod.fst).Nodup) :
+    ((aset q x v).map Prod.fst).Nodup := by
+  induction q with
+  | nil => simp [aset]
+  | cons hd t ih =>
+    obtain ⟨z, w⟩ := hd
+    simp only [List.map, List.nodup_cons] at h
+    simp only [aset]
+    split
+    · simp only [List.map, List.nodup_cons]; exact h
+    · rename_i hz
+      simp only [List.map, List.nodup_cons]
+      refine ⟨?_, ih h.2⟩
+      intro hm
+      rcases (keys_aset t x v z).mp hm with e | e
+      · exact hz e
+      · exact h.1 e
+
+theorem nodup_filter_keys (q : List (Cid × Val)) (P : Cid × Val → Bool) (h : (q.map Prod.fst).Nodup) :
+    ((q.filter P).map Prod.fst).Nodup := by
+  induction q with
+  | nil => simp
+  | cons hd t ih =>
+    simp only [List.map, List.nodup_cons] at h
+    simp only [List.filter]
+    split
+    · simp only [List.map, List.nodup_cons]
+      refine ⟨fun hm => h.1 ?_, ih h.2⟩
+      obtain ⟨e, he, hee⟩ := List.mem_map.mp hm
+      exact List.mem_map.mpr ⟨e, (List.mem_filter.mp he).1, hee⟩
+    · exact ih h.2
+
+theorem aget_of_mem (q : List (Cid × Val)) (x : Cid) (v : Val) (h : (q.map Prod.fst).Nodup) (hm : (x, v) ∈ q) :
+    aget q x = some v := by
+  induction q with
+  | nil => cases hm
+  | cons hd t ih =>
+    obtain ⟨z, w⟩ := hd
+    simp only [List.map, List.nodup_cons] at h
+    simp only [aget]
+    rcases List.mem_cons.mp hm with e | e
+    · cases e; simp
+    · split
+      · rename_i hz; subst hz
+        exact absurd (List.mem_map.mpr ⟨(z, v), e, rfl⟩) h.1
+      · exact ih h.2 e
+
+/-! ### per-object queue invariant -/
+
+/-- originator exclusion (ghost `qsrc`), immediate entries have a pending `call_soon` flush,
+    the queue is a dict -/
+structure QOk (c : Cfg) (o : Obj) : Prop where
+  src : ∀ x, o.qsrc x ≠ some o.addr
+  imm : ∀ x, (aget o.queue x).isSome = true → c.imm x = true → 0 < o.soon
+  nodup : (o.queue.map Prod.fst).Nodup
+
+theorem qok_default (c : Cfg) (a : Addr) (t : Nat) : QOk c { addr := a, last := t } := by
+  constructor <;> simp [aget]
+
+theorem qok_closeO (c : Cfg) (o : Obj) (h : QOk c o) : QOk c (closeO c o) := by
+  obtain ⟨h1, h2, h3⟩ := h
+  simp only [closeO]; split
+  · constructor <;> simp [aget]; exact h1
+  · exact ⟨h1, h2, h3⟩
+
+theorem qok_enqueue (c : Cfg) (o : Obj) (x : Cid) (v : Val) (src : Option Addr) (now : Nat) (h : QOk c o)
+    (hs : src ≠ some o.addr) : QOk c (enqueue o x v (c.imm x) src now) := by
+  obtain ⟨h1, h2, h3⟩ := h
+  constructor
+  · intro y; simp only [enqueue, upd_apply]; split
+    · exact hs
+    · exact h1 y
+  · intro y hy hi
+    simp only [enqueue] at hy ⊢
+    rw [aget_aset] at hy
+    split at hy
+    · rename_i e; subst e; simp [hi]
+    · have := h2 y hy hi
+      split <;> omega
+  · exact nodup_aset _ _ _ h3
+
+theorem qok_clear (c : Cfg) (o o' : Obj) (h : QOk c o) (e1 : o'.addr = o.addr) (e2 : o'.qsrc = o.qsrc) (e3 : o'.queue = []) :
+    QOk c o' := by
+  obtain ⟨h1, h2, h3⟩ := h
+  constructor
+  · intro x; rw [e1, e2]; exact h1 x
+  · intro x hx; rw [e3] at hx; simp [aget] at hx
+  · rw [e3]; simp
+
+theorem qok_same (c : Cfg) (o o' : Obj) (h : QOk c o) (e1 : o'.addr = o.addr) (e2 : o'.qsrc = o.qsrc)
+    (e3 : o'.queue = o.queue) (e4 : o.soon ≤ o'.soon) : QOk c o' := by
+  obtain ⟨h1, h2, h3⟩ := h
+  constructor
+  · intro x; rw [e1, e2]; exact h1 x
+  · intro x hx hi; rw [e3] at hx; have := h2 x hx hi; omega
+  · rw [e3]; exact h3
+
+theorem qok_adel (c : Cfg) (o : Obj) (x : Cid) (h : QOk c o) : QOk c { o with queue := adel o.queue x } := by
+  obtain ⟨h1, h2, h3⟩ := h
+  constructor
+  · exact h1
+  · intro y hy hi
+    simp only [aget_adel] at hy
+    split at hy
+    · simp at hy
+    · exact h2 y hy hi
+  · exact nodup_filter_keys _ _ h3
+
+def InvQ (c : Cfg) (s : St) : Prop := ∀ q, QOk c (s.obj q)
+
+theorem invQ_init (c : Cfg) : InvQ c (init c) := by
+  intro q; constructor <;> simp [init, aget]
+
+theorem invQ_updObj (c : Cfg) (s : St) (p : ObjId) (o' : Obj) (h : InvQ c s) (ho : QOk c o') :
+    InvQ c { s with obj := upd s.obj p o' } := by
+  intro q; simp only [upd_apply]; split
+  · exact ho
+  · exact h q
+
+theorem invQ_closeP (c : Cfg) (s : St) (p : ObjId) (h : InvQ c s) : InvQ c (closeP c s p).1 := by
+  simp only [closeP]
+  intro q; simp only [upd_apply]; split
+  · exact qok_closeO c _ (h p)
+  · exact h q
+
+theorem invQ_sendEvents_weak (c : Cfg) (s : St) (p : ObjId) (h : ∀ q, q ≠ p → QOk c (s.obj q))
+    (hp : ∀ x, (s.obj p).qsrc x ≠ some (s.obj p).addr) : InvQ c (sendEvents s p).1 := by
+  have key : ∀ o' : Obj, o'.addr = (s.obj p).addr → o'.qsrc = (s.obj p).qsrc → o'.queue = [] →
+      InvQ c { s with obj := upd s.obj p o' } := by
+    intro o' e1 e2 e3 q
+    simp only [upd_apply]; split
+    · constructor
+      · intro x; rw [e1, e2]; exact hp x
+      · intro x hx; rw [e3] at hx; simp [aget] at hx
+      · rw [e3]; simp
+    · rename_i hq; exact h q hq
+  simp only [sendEvents]
+  split
+  · rename_i hq; exact key _ rfl rfl hq
+  · split
+    · exact key _ rfl rfl rfl
+    · exact key _ rfl rfl rfl
+
+theorem invQ_sendEvents (c : Cfg) (s : St) (p : ObjId) (h : InvQ c s) : InvQ c (sendEvents s p).1 :=
+  invQ_sendEvents_weak c s p (fun q _ => h q) (h p).src
+
+theorem invQ_respond (c : Cfg) (s : St) (p : ObjId) (code : Nat) (b : Body) (h : InvQ c s) : InvQ c (respond s p code b).1 :=
+  invQ_updObj c s p _ h (qok_same c (s.obj p) _ (h p) rfl rfl rfl (Nat.le_refl _))
+
+theorem invQ_publish (c : Cfg) (s : St) (x : Cid) (v : Val) (sd : Option Addr) (h : InvQ c s) :
+    InvQ c (publish c s x v sd) := by
+  simp only [publish]
+  split
+  · exact h
+  · split
+    · exact h
+    · intro q
+      simp only [pubObj]
+      split
+      · split
+        · exact qok_same c (s.obj q) _ (h q) rfl rfl rfl (Nat.le_refl _)
+        · rename_i hne
+          have := qok_enqueue c (s.obj q) x v sd s.now (h q) (fun e => hne e.symm)
+          exact qok_same c _ _ this rfl rfl rfl (Nat.le_refl _)
+      · exact h q
+
+theorem invQ_writeVal (c : Cfg) (s : St) (x : Cid) (v : Val) (sd : Option Addr) (h : InvQ c s) :
+    InvQ c (writeVal c s x v sd) := by
+  simp only [writeVal]
+  have h1 : InvQ c { s with value := upd s.value x (some v) } := h
+  split
+  · split
+    · exact invQ_publish c _ x v sd h1
+    · exact h1
+  · split
+    · exact invQ_publish c _ x v sd h1
+    · exact h1
+
+theorem invQ_discardStale (c : Cfg) (s : St) (a : Addr) (x : Cid) (h : InvQ c s) : InvQ c (discardStale c s a x) := by
+  simp only [discardStale]
+  split
+  · split
+    · exact h
+    · split
+      · exact h
+      · split
+        · exact invQ_updObj c s _ _ h (qok_adel c _ x (h _))
+        · exact h
+  · exact h
+
+theorem invQ_putChars (c : Cfg) (s : St) (p : ObjId) (x : Cid) (ev : Option Bool) (val : Option Val) (h : InvQ c s) :
+    InvQ c (putChars c s p x ev val) := by
+  have h1 : InvQ c (putSub s p x ev) := by
+    simp only [putSub]; split
+    · exact h
+    · exact h
+    · exact invQ_updObj c { s with topics := _ } p _ h (qok_same c (s.obj p) _ (h p) rfl rfl rfl (Nat.le_refl _))
+  simp only [putChars]
+  split
+  · exact h1
+  · rename_i v
+    simp only [putVal]
+    have h5 := invQ_discardStale c _ ((putSub s p x ev).obj p).addr x (invQ_writeVal c (putSub s p x ev) x v (some ((putSub s p x ev).obj p).addr) h1)
+    exact invQ_updObj c _ p _ h5 (qok_same c _ _ (h5 p) rfl rfl rfl (Nat.le_refl _))
+
+theorem invQ_onReq (c : Cfg) (s : St) (p : ObjId) (r : Req) (h : InvQ c s) : InvQ c (onReq c s p r).1 := by
+  simp only [onReq]
+  split
+  · exact invQ_closeP c s p h
+  · split
+    · exact invQ_closeP c s p h
+    · exact invQ_closeP c s p h
+    · rename_i x ev val cl
+      simp only [onPut]
+      have hr : InvQ c (if (s.obj p).verified then respond (putChars c s p x ev val) p 204 Body.none
+           else respond s p 401 Body.none).1 := by
+        split
+        · exact invQ_respond c _ p _ _ (invQ_putChars c s p x ev val h)
+        · exact invQ_respond c _ p _ _ h
+      split
+      · exact invQ_closeP c _ p hr
+      · exact hr
+    · split <;> exact invQ_respond c _ p _ _ h
+    · split
+      · exact invQ_respond c { s with prepared := _ } p _ _ h
+      · exact invQ_respond c _ p _ _ h
+    · exact invQ_updObj c s p _ h (qok_same c (s.obj p) _ (h p) rfl rfl rfl (Nat.le_refl _))
+
+theorem invQ_step (c : Cfg) (s : St) (e : Ev) (h : InvQ c s) : InvQ c (step c s e).1 := by
+  cases e with
+  | tick dt => exact h
+  | connect a =>
+    simp only [step]; split
+    · exact h
+    · exact invQ_updObj c { s with nobj := _, reg := _ } s.nobj _ h (qok_default c a s.now)
+  | verify p =>
+    simp only [step]; split
+    · exact invQ_updObj c s p _ h (qok_same c (s.obj p) _ (h p) rfl rfl rfl (Nat.le_refl _))
+    · exact h
+  | data p r =>
+    simp only [step]; split
+    · simp only [onData]
+      exact invQ_onReq c _ p r (invQ_updObj c s p _ h (qok_same c (s.obj p) _ (h p) rfl rfl rfl (Nat.le_refl _)))
+    · exact h
+  | appSet x v => exact invQ_writeVal c s x v none h
+  | timerFire p =>
+    simp only [step]; split
+    · exact invQ_sendEvents c s p h
+    · exact h
+  | soonFlush p =>
+    simp only [step]; split
+    · -- the decremented counter is only checked after the queue has been cleared
+      apply invQ_sendEvents_weak
+      · intro q hq; simp only [upd_apply, hq, if_false]; exact h q
+      · intro x; simp only [upd_apply, if_true]; exact (h p).src x
+    · exact h
+  | respReady p ok =>
+    simp only [step]; split
+    · have hs1 : InvQ c { s with obj := upd s.obj p { s.obj p with pending := false } } :=
+        invQ_updObj c s p _ h (qok_same c (s.obj p) _ (h p) rfl rfl rfl (Nat.le_refl _))
+      split
+      · exact hs1
+      · split <;> exact invQ_respond c _ p _ _ hs1
+    · exact h
+  | lose p =>
+    simp only [step]; split
+    · simp only [markLost]
+      have h2 : InvQ c (closeP c (dropConn s (s.obj p).addr) p).1 := invQ_closeP c _ p h
+      exact invQ_updObj c _ p _ h2 (qok_same c _ _ (h2 p) rfl rfl rfl (Nat.le_refl _))
+    · exact h
+  | idleSweep =>
+    simp only [step]
+    intro q; simp only; split
+    · exact qok_closeO c _ (h q)
+    · exact h q
+  | stop =>
+    simp only [step]
+    intro q; simp only; split
+    · exact qok_closeO c _ (h q)
+    · exact h q
+
+theorem invQ_run (c : Cfg) (tr : List Ev) (s : St) (h : InvQ c s) : InvQ c (run c s tr).1 := by
+  induction tr generalizing s with
+  | nil => exact h
+  | cons e es ih => simp only [run]; exact ih _ (invQ_step c s e h)
+
+end Hap.Sys
+
+namespace Hap.Sys
+
+/-- every subscribed address belongs to a live (not lost) connection holding a verified session -/
+def SubInv (s : St) : Prop :=
+  ∀ a x, subscribed s x a →
+    ∃ p, p < s.nobj ∧ (s.obj p).addr = a ∧ (s.obj p).lost = false ∧ (s.obj p).verified = true
+
+theorem subInv_init (c : Cfg) : SubInv (init c) := by
+  intro a x h; simp [subscribed, init] at h
+
+theorem subInv_step (c : Cfg) (s : St) (e : Ev) (hA : InvA s) (h : SubInv s) : SubInv (step c s e).1 := by
+  by_cases hc : ∃ a, e = Ev.connect a
+  · obtain ⟨a', rfl⟩ := hc
+    simp only [step]; split
+    · exact h
+    · intro a x hs
+      obtain ⟨p, p1, p2, p3, p4⟩ := h a x hs
+      refine ⟨p, Nat.lt_succ_of_lt p1, ?_, ?_, ?_⟩ <;> simp [upd_apply, Nat.ne_of_lt p1, p2, p3, p4]
+  by_cases hl : ∃ p, e = Ev.lose p
+  · obtain ⟨p, rfl⟩ := hl
+    simp only [step]; split
+    · intro a x hs
+      simp only [subscribed, markLost, closeP, dropConn, memT_lostDel] at hs
+      simp at hs
+      obtain ⟨w, w1, w2, w3, w4⟩ := h a x hs.1
+      have hwp : w ≠ p := by intro e; subst e; exact hs.2 w2.symm
+      refine ⟨w, by simpa [markLost, closeP, dropConn] using w1, ?_, ?_, ?_⟩ <;>
+        simp [markLost, closeP, dropConn, upd_apply, hwp, w2, w3, w4]
+    · exact h
+  by_cases ht : ∃ dt, e = Ev.tick dt
+  · obtain ⟨dt, rfl⟩ := ht; exact h
+  by_cases hdis : ∃ p r, e = Ev.data p r ∧ ¬ (p < s.nobj ∧ (s.obj p).closing = false)
+  · obtain ⟨p, r, rfl, hen⟩ := hdis
+    simp only [step, hen, if_false]; exact h
+  have hr := rel_step c s e (fun a he => hc ⟨a, he⟩) (fun p he => hl ⟨p, he⟩) (fun d he => ht ⟨d, he⟩)
+  intro a x hs
+  have carry : ∀ w, w < s.nobj ∧ (s.obj w).addr = a ∧ (s.obj w).lost = false ∧ (s.obj w).verified = true →
+      ∃ p, p < (step c s e).1.nobj ∧ ((step c s e).1.obj p).addr = a ∧ ((step c s e).1.obj p).lost = false ∧
+        ((step c s e).1.obj p).verified = true := by
+    intro w ⟨w1, w2, w3, w4⟩
+    exact ⟨w, by rw [hr.nobj]; exact w1, by rw [hr.addr]; exact w2, by rw [hr.lost]; exact w3, hr.verified w w4⟩
+  by_cases hne : some a = tgt s e
+  · cases e with
+    | data p r =>
+      simp only [tgt, vtgt] at hne
+      split at hne
+      case isFalse => cases hne
+      rename_i hv
+      injection hne with hne
+      have hen : p < s.nobj ∧ (s.obj p).closing = false := by
+        apply Classical.byContradiction; intro hen; exact hdis ⟨p, r, rfl, hen⟩
+      have hpl : (s.obj p).lost = false := by
+        cases hh : (s.obj p).lost with
+        | false => rfl
+        | true => have := hA.lost_closing p hh; simp_all
+      exact carry p ⟨hen.1, hne.symm, hpl, hv⟩
+    | _ => simp [tgt] at hne
+  · obtain ⟨w, hw⟩ := h a x (hr.topics a x hne hs)
+    exact carry w hw
+
+/-- under the reuse hypothesis an open connection is the registered one for its address -/
+def RegInv (s : St) : Prop := ∀ p, p < s.nobj → (s.obj p).closing = false → s.reg (s.obj p).addr = some p
+
+end Hap.Sys
+
+namespace Hap.Sys
+
+/-! ### where EVENT messages come from -/
+
+def Out.isEvent : Out → Prop
+  | .event _ _ _ => True
+  | _ => False
+
+def noEvent (l : List Out) : Prop := ∀ o ∈ l, ¬ o.isEvent
+
+theorem noEvent_nil : noEvent [] := by intro o ho; cases ho
+theorem noEvent_append {l1 l2 : List Out} (h1 : noEvent l1) (h2 : noEvent l2) : noEvent (l1 ++ l2) := by
+  intro o ho; rcases List.mem_append.mp ho with h | h
+  · exact h1 o h
+  · exact h2 o h
+theorem noEvent_closeOuts (q : ObjId) (t : Nat) : noEvent (closeOuts q t) := by
+  intro o ho; simp [closeOuts] at ho; rcases ho with rfl | rfl <;> simp [Out.isEvent]
+theorem noEvent_respond (s : St) (q : ObjId) (code : Nat) (b : Body) : noEvent (respond s q code b).2 := by
+  intro o ho; simp [respond] at ho; subst ho; simp [Out.isEvent]
+
+theorem noEvent_onReq (c : Cfg) (s : St) (q : ObjId) (r : Req) : noEvent (onReq c s q r).2 := by
+  simp only [onReq]
+  split
+  · exact noEvent_closeOuts _ _
+  · split
+    · exact noEvent_closeOuts _ _
+    · exact noEvent_closeOuts _ _
+    · rename_i x ev val cl
+      simp only [onPut]
+      have hr : noEvent (if (s.obj q).verified then respond (putChars c s q x ev val) q 204 Body.none
+           else respond s q 401 Body.none).2 := by
+        split <;> exact noEvent_respond _ _ _ _
+      split
+      · exact noEvent_append hr (noEvent_closeOuts _ _)
+      · exact hr
+    · split <;> exact noEvent_respond _ _ _ _
+    · split <;> exact noEvent_respond _ _ _ _
+    · exact noEvent_nil
+
+theorem sendEvents_event (s : St) (p q : ObjId) (t : Nat) (es : List (Cid × Val))
+    (h : Out.event q t es ∈ (sendEvents s p).2) :
+    q = p ∧ t = s.now ∧ es ≠ [] ∧ es = (s.obj p).queue.filter (fun e => memT (s.topics e.1) (s.obj p).addr) := by
+  simp only [sendEvents] at h
+  split at h
+  · cases h
+  · split at h
+    · cases h
+    · rename_i hne
+      simp at h
+      obtain ⟨rfl, rfl, rfl⟩ := h
+      exact ⟨rfl, rfl, hne, rfl⟩
+
+/-- an EVENT message is only ever produced by `_send_events`, run by the coalescing timer or by a
+    `call_soon` callback of that same connection, and lists exactly the queued entries whose
+    characteristic the connection is subscribed to at that instant -/
+theorem step_event (c : Cfg) (s : St) (e : Ev) (q : ObjId) (t : Nat) (es : List (Cid × Val))
+    (h : Out.event q t es ∈ (step c s e).2) :
+    (e = Ev.timerFire q ∨ e = Ev.soonFlush q) ∧ q < s.nobj ∧ t = s.now ∧ es ≠ [] ∧
+    es = (s.obj q).queue.filter (fun e => memT (s.topics e.1) (s.obj q).addr) := by
+  have ne : ∀ l : List Out, noEvent l → Out.event q t es ∉ l := fun l hl hm => hl _ hm (by simp [Out.isEvent])
+  cases e with
+  | tick dt => cases h
+  | connect a => simp only [step] at h; split at h <;> cases h
+  | verify p => simp only [step] at h; split at h <;> cases h
+  | data p r =>
+    simp only [step] at h; split at h
+    · exact absurd h (ne _ (noEvent_onReq c _ p r))
+    · cases h
+  | appSet x v => cases h
+  | timerFire p =>
+    simp only [step] at h; split at h
+    · rename_i hen
+      obtain ⟨rfl, h2, h3, h4⟩ := sendEvents_event s p q t es h
+      exact ⟨Or.inl rfl, hen.1, h2, h3, h4⟩
+    · cases h
+  | soonFlush p =>
+    simp only [step] at h; split at h
+    · rename_i hen
+      obtain ⟨rfl, h2, h3, h4⟩ := sendEvents_event _ p q t es h
+      refine ⟨Or.inr rfl, hen.1, h2, h3, ?_⟩
+      simpa [upd_apply] using h4
+    · cases h
+  | respReady p ok =>
+    simp only [step] at h; split at h
+    · split at h
+      · cases h
+      · split at h <;> exact absurd h (ne _ (noEvent_respond _ _ _ _))
+    · cases h
+  | lose p =>
+    simp only [step] at h; split at h
+    · exact absurd h (ne _ (noEvent_closeOuts _ _))
+    · cases h
+  | idleSweep =>
+    simp only [step, List.mem_flatMap] at h
+    obtain ⟨p, _, hp⟩ := h
+    exact absurd hp (ne _ (noEvent_closeOuts _ _))
+  | stop =>
+    simp only [step, List.mem_flatMap] at h
+    obtain ⟨p, _, hp⟩ := h
+    exact absurd hp (ne _ (noEvent_closeOuts _ _))
+
+theorem subInv_run (c : Cfg) (hc : c.fix13 = true) (tr : List Ev) (s : St) (hA : InvA s) (h : SubInv s) :
+    SubInv (run c s tr).1 := by
+  induction tr generalizing s with
+  | nil => exact h
+  | cons e es ih => simp only [run]; exact ih _ (invA_step c hc s e hA) (subInv_step c s e hA h)
+
+end Hap.Sys
+
+namespace Hap.Sys
+
+theorem run_append (c : Cfg) (s : St) (t1 t2 : List Ev) :
+    (run c s (t1 ++ t2)).1 = (run c (run c s t1).1 t2).1 := by
+  induction t1 generalizing s with
+  | nil => rfl
+  | cons e es ih => simp only [List.cons_append, run]; exact ih _
+
+theorem reuseOK_append (c : Cfg) (s : St) (t1 t2 : List Ev) :
+    ReuseOK c s (t1 ++ t2) ↔ ReuseOK c s t1 ∧ ReuseOK c (run c s t1).1 t2 := by
+  induction t1 generalizing s with
+  | nil => simp [ReuseOK, run]
+  | cons e es ih =>
+    simp only [List.cons_append, reuseOK_cons, run, ih]
+    constructor
+    · rintro ⟨h1, h2, h3⟩; exact ⟨⟨h1, h2⟩, h3⟩
+    · rintro ⟨⟨h1, h2⟩, h3⟩; exact ⟨h1, h2, h3⟩
+
+/-- what the accessory may still hold for a peer address -/
+def holdsNothingFor (s : St) (a : Addr) : Prop :=
+  (∀ x, ¬ subscribed s x a) ∧ s.prepared a = none ∧ s.reg a = none
+
+theorem clean_of_allLost (s : St) (a : Addr) (hA : InvA s) (hC : CleanInv s) (h : allLost s a) :
+    holdsNothingFor s a := by
+  obtain ⟨g1, g2⟩ := hC a h
+  refine ⟨fun x hx => ?_, g2, ?_⟩
+  · simp [subscribed, g1 x] at hx
+  · cases hr : s.reg a with
+    | none => rfl
+    | some q =>
+      obtain ⟨q1, q2, q3⟩ := hA.reg_ok a q hr
+      have hl := h q q1 q2
+      have := hA.lost_closing q hl
+      simp_all
+
+
+end Hap.Sys
